@@ -152,6 +152,8 @@ type verifC08_scheduler struct {
 	believes bool
 	// ghost: the last usable reply told the worker to be idle (no execute since)
 	toldIdle bool
+	// scripted scenarios: 1 + the reply to give next (0 = any reply)
+	forced int
 }
 
 func (s *verifC08_scheduler) Synchronize(ctx context.Context, in *remoteworker.SynchronizeRequest, opts ...grpc.CallOption) (*remoteworker.SynchronizeResponse, error) {
@@ -187,7 +189,11 @@ func (s *verifC08_scheduler) Synchronize(ctx context.Context, in *remoteworker.S
 		reportsRunning = !completed
 	}
 	s.believes = true
-	switch rt.Choose(5) {
+	choice := s.forced - 1
+	if choice < 0 {
+		choice = rt.Choose(5)
+	}
+	switch choice {
 	case 0:
 		rt.Cover("sched:execute")
 		s.toldIdle = false
@@ -221,6 +227,20 @@ func verifHarness_C08_BuildClient() {
 	}
 	rt.Bound("runs", k)
 	rt.MustCover("sched:execute", "sched:idle", "sched:no-change", "sched:rpc-error", "sched:bad-timestamp", "exec:replaced", "exec:completed-reported", "shutdown:keeps-synchronizing", "shutdown:terminates", "readiness:failed", "sched:idle-obeyed", "shutdown:during-wait")
+	verifC08_buildClient(k, false)
+}
+
+// An action that runs for longer than a minute: the scheduler hands it out,
+// confirms it once more 70 s later, and then shutdown begins (third run, all
+// its choices free). The worker may not leave while the scheduler can still
+// believe it is executing -- a belief every successful synchronization renews.
+func verifHarness_C08_LongRunningAction() {
+	rt.Bound("runs", 3)
+	rt.MustCover("sched:execute", "sched:no-change", "shutdown:keeps-synchronizing")
+	verifC08_buildClient(3, true)
+}
+
+func verifC08_buildClient(k int, longAction bool) {
 	clk := &verifC08_clock{now: 1000}
 	ex := &verifC08_executor{cmds: make(chan verifC08_cmd)}
 	ctx := &verifC08_ctx{}
@@ -232,13 +252,24 @@ func verifHarness_C08_BuildClient() {
 	finishedCurrent := false // ghost: the harness told the current action to finish
 	for i := 0; i < k; i++ {
 		// environment step: clock, shutdown, readiness, executor progress
-		clk.now += []int64{0, 70, 120}[rt.Choose(3)]
-		if !ctx.cancelled && rt.NondetBool("shutdown begins") {
-			ctx.cancelled = true
+		scripted := longAction && i < 2
+		sched.forced = 0
+		if scripted {
+			// run 0: the scheduler hands out an action; run 1, 70 s later: no change
+			clk.now += []int64{0, 70}[i]
+			sched.forced = 1 + []int{0, 2}[i]
+			ex.readinessErr = false
+		} else {
+			clk.now += []int64{0, 70, 120}[rt.Choose(3)]
+			if longAction {
+				ctx.cancelled = true
+			} else if !ctx.cancelled && rt.NondetBool("shutdown begins") {
+				ctx.cancelled = true
+			}
+			ex.readinessErr = rt.NondetBool("runner not ready")
 		}
-		ex.readinessErr = rt.NondetBool("runner not ready")
 		clk.fireTimer = true
-		if bc.executionCancellation != nil && !finishedCurrent {
+		if !scripted && bc.executionCancellation != nil && !finishedCurrent {
 			switch rt.Choose(3) {
 			case 1:
 				c := verifC08_cmd{kind: 0, ack: make(chan struct{})}
